@@ -236,6 +236,9 @@ class DistBeta(DistContinuous):
         """
         y1 = self._dist1.draw()
         y2 = self._dist2.draw()
+        while y1 + y2 <= 0.0:  # both gamma draws underflowed to zero
+            y1 = self._dist1.draw()
+            y2 = self._dist2.draw()
         return y1 / (y1 + y2)
 
     def probability_density(self, x: float) -> float:
@@ -1339,7 +1342,10 @@ class DistPearson5(DistContinuous):
         Draw a value from the Pearson5 distribution. Based on the algorithm in 
         Law & Kelton, Simulation Modeling and Analysis, 1991, p. 492-493.
         """
-        return 1.0 / self._dist.draw()
+        y = self._dist.draw()
+        while y <= 0.0:  # the gamma draw underflowed to zero
+            y = self._dist.draw()
+        return 1.0 / y
 
     def _set_stream(self, stream: StreamInterface):
         """Internal method to initialize the underlying distribution when
@@ -1428,7 +1434,11 @@ class DistPearson6(DistContinuous):
         beta/beta = 1, without the scale parameter. So, in contrast with 
         Law & Kelton and Banks (2000), a multiplication with beta is added.
         """
-        return self._beta * self._dist1.draw() / self._dist2.draw()
+        y1 = self._dist1.draw()
+        y2 = self._dist2.draw()
+        while y2 <= 0.0:  # the gamma draw underflowed to zero
+            y2 = self._dist2.draw()
+        return self._beta * y1 / y2
 
     def _set_stream(self, stream: StreamInterface):
         """Internal method to initialize the underlying distribution when
